@@ -295,14 +295,20 @@ func (c *Classifier) LoadLicenses(dir string) error {
 	}
 
 	for _, f := range files {
-		relativePath := strings.Replace(f, dir, "", 1)
+		// The path relative to dir is category/name/variant[/...], however dir
+		// is spelled (trailing separator, "./" prefix, "." or absolute).
+		relativePath, err := filepath.Rel(dir, f)
+		if err != nil {
+			c.tc.trace("Cannot make %s relative to %s: %v", f, dir, err)
+			continue
+		}
 		sep := fmt.Sprintf("%c", os.PathSeparator)
 		segments := strings.Split(relativePath, sep)
 		if len(segments) < 3 {
 			c.tc.trace("Insufficient segment count for path: %s", relativePath)
 			continue
 		}
-		category, name, variant := segments[1], segments[2], segments[3]
+		category, name, variant := segments[0], segments[1], segments[2]
 		b, err := ioutil.ReadFile(f)
 		if err != nil {
 			return err
